@@ -35,6 +35,7 @@ def run(ctx):
     rule_export_purity(ctx, 'C18.R4')
     rule_registry(ctx, 'C18.R5')
     rule_yaml_safe(ctx, 'C18.R6')
+    rule_list_like_options(ctx, 'C18.R6')
 
 
 # ----------------------------------------------------------------------------------------------
@@ -789,3 +790,32 @@ def rule_yaml_safe(ctx, rid):
                 ty, show(hit[1])[:60], ': numpy scalars survive and the YAML cannot be loaded again'
                 if ty == 'numpy.ndarray' else ''), expected='val.tolist()' if ty == 'numpy.ndarray' else None,
                 found=show(hit[1])[:80])
+
+
+def rule_list_like_options(ctx, rid):
+    """A configuration read back from YAML holds lists where the original held tuples or arrays.  A type test on an
+    option that singles out np.ndarray or tuple without also accepting list makes the reloaded configuration take a
+    different branch (an array of per-IMF mask amplitudes becomes a "scalar")."""
+    P = ctx.P
+    SEQ = {'numpy.ndarray', 'builtins.tuple'}
+    n = 0
+    for q, fi in sorted(P.funcs.items()):
+        if fi.module.name != 'emd.sift' or fi.cls is not None or fi.name == '_array_or_tuple_to_list':
+            continue
+        formals = set(fi.all_formals())
+        for c in P.calls_in(fi):
+            if not (isinstance(c.func, ast.Name) and c.func.id == 'isinstance' and len(c.args) == 2
+                    and isinstance(c.args[0], ast.Name) and c.args[0].id in formals):
+                continue
+            tnode = c.args[1]
+            tys = [P.resolve(fi.module, t, fi) for t in (tnode.elts if isinstance(tnode, ast.Tuple) else [tnode])]
+            n += 1
+            cst = 'type test on option %s treats list like tuple / ndarray' % c.args[0].id
+            if set(tys) & SEQ and 'builtins.list' not in tys:
+                ctx.violation(rid, fi, cst, 'isinstance(%s, %s) accepts %s but not list: after a YAML round trip the '
+                              'option is a list and takes the other branch' % (c.args[0].id, unparse(tnode),
+                                                                               ' / '.join(sorted(set(tys) & SEQ))),
+                              node=c)
+            else:
+                ctx.passed(rid, fi, cst, unparse(tnode), node=c)
+    ctx.cover['option_type_tests'] = n
